@@ -418,3 +418,97 @@ Qed.
 Theorem json_ann_roundtrip l rest :
   read_obj (json_ann l ++ rest) = Some (san_ann (kv_sort l), rest).
 Proof. unfold json_ann. apply (read_obj_pairs (kv_sort l) rest). Qed.
+
+(* ---------- the stored document declares the media type of the returned descriptor ---------- *)
+Lemma strip_prefix_app p t : strip_prefix p (p ++ t) = Some t.
+Proof. induction p as [|c p IH]; simpl; auto. now rewrite N.eqb_refl. Qed.
+
+Lemma join_head x l : exists t, join comma (x :: l) = x ++ t.
+Proof.
+  destruct l as [|y l]; [exists []; simpl; now rewrite app_nil_r|].
+  exists (comma ++ join comma (y :: l)). reflexivity.
+Qed.
+
+Lemma join_head2 x y l : exists t, join comma (x :: y :: l) = x ++ comma ++ y ++ t.
+Proof.
+  destruct (join_head y l) as (t & E). exists t.
+  change (join comma (x :: y :: l)) with (x ++ comma ++ join comma (y :: l)). now rewrite E.
+Qed.
+
+Lemma read_field_json name v rest :
+  read_field name (field name (json_string v) ++ rest) = Some (utf8_san v, rest).
+Proof.
+  unfold read_field, field.
+  assert (E : (json_string (b name) ++ 58 :: json_string v) ++ rest
+              = (json_string (b name) ++ [58]) ++ json_string v ++ rest)
+    by (rewrite <- !app_assoc; reflexivity).
+  rewrite E, strip_prefix_app. apply read_string_json.
+Qed.
+
+Lemma kind_mt_clean k : utf8_san (kind_mt k) = kind_mt k.
+Proof. destruct k; vm_compute; reflexivity. Qed.
+
+Theorem doc_media_type_json m : doc_media_type (json_manifest m) = Some (kind_mt (m_kind m)).
+Proof.
+  unfold json_manifest. destruct (m_kind m) eqn:K; cbn [app].
+  - match goal with |- doc_media_type (json_obj (?a :: ?b' :: ?l)) = _ =>
+      destruct (join_head2 a b' l) as (t & E); unfold json_obj, doc_media_type; rewrite E end.
+    cbn [app strip_prefix N.eqb Pos.eqb]. rewrite <- !app_assoc.
+    rewrite (app_assoc (field "schemaVersion" [50]) comma). rewrite strip_prefix_app. rewrite read_field_json. now rewrite kind_mt_clean.
+  - match goal with |- doc_media_type (json_obj (?a :: ?l)) = _ =>
+      destruct (join_head a l) as (t & E); unfold json_obj, doc_media_type; rewrite E end.
+    cbn [app strip_prefix N.eqb Pos.eqb]. rewrite <- app_assoc.
+    assert (NS : forall t', strip_prefix (field "schemaVersion" [50] ++ comma)
+                   (field "mediaType" (json_string (kind_mt KArtifact)) ++ t') = None) by reflexivity.
+    rewrite NS. rewrite read_field_json. now rewrite kind_mt_clean.
+Qed.
+
+Lemma join_cons x y l : join comma (x :: y :: l) = x ++ comma ++ join comma (y :: l).
+Proof. reflexivity. Qed.
+
+(* ... and the artifactType the caller asked for (coerced), when the document has one *)
+Theorem doc_artifact_type_json m :
+  doc_artifact_type (json_manifest m) =
+  match m_kind m, m_at m with
+  | KImage, [] => None
+  | _, a => Some (utf8_san a)
+  end.
+Proof.
+  unfold json_manifest. destruct (m_kind m) eqn:K; cbn [app].
+  - destruct (m_at m) as [|a0 a] eqn:A; cbn [nonempty opt_field app].
+    + (* no artifactType: the next field is "config" *)
+      unfold json_obj, doc_artifact_type. rewrite !join_cons.
+      cbn [app strip_prefix N.eqb Pos.eqb]. rewrite <- !app_assoc.
+      rewrite (app_assoc (field "schemaVersion" [50]) comma). rewrite strip_prefix_app.
+      rewrite read_field_json. rewrite strip_prefix_app. reflexivity.
+    + unfold json_obj, doc_artifact_type. rewrite !join_cons.
+      cbn [app strip_prefix N.eqb Pos.eqb]. rewrite <- !app_assoc.
+      rewrite (app_assoc (field "schemaVersion" [50]) comma). rewrite strip_prefix_app.
+      rewrite read_field_json. rewrite strip_prefix_app. rewrite read_field_json. reflexivity.
+  - match goal with |- doc_artifact_type (json_obj (?a :: ?b' :: ?l)) = _ =>
+      destruct (join_head b' l) as (t & E); unfold json_obj, doc_artifact_type; rewrite join_cons, E end.
+    cbn [app strip_prefix N.eqb Pos.eqb]. rewrite <- !app_assoc.
+    assert (NS : forall t', strip_prefix (field "schemaVersion" [50] ++ comma)
+                   (field "mediaType" (json_string (kind_mt KArtifact)) ++ t') = None) by reflexivity.
+    rewrite NS. rewrite read_field_json. rewrite strip_prefix_app. rewrite read_field_json.
+    destruct (m_at m); reflexivity.
+Qed.
+
+(* "those bytes parse as a manifest of the returned media type": with the modelled json.Marshal, the
+   document stored under the returned descriptor declares that descriptor's media type, and the artifact
+   type of the requested manifest (coerced to UTF-8) exactly when the manifest has one *)
+Theorem stored_document_declares (H : str -> str) (H_empty : H empty_json = empty_json_digest)
+        (H_inj : forall x y, H x = H y -> x = y) f tc fa s at_ o now s' d m :
+  wf_store H (s_store s) ->
+  pack json_manifest H f tc fa s at_ o now = (s', Ok d m) ->
+  exists e, In e (s_store s') /\ same_key (t_key tc) d e = true /\
+            doc_media_type (e_bytes e) = Some (d_mt d) /\
+            doc_artifact_type (e_bytes e) =
+              match m_kind m, m_at m with KImage, [] => None | _, a => Some (utf8_san a) end.
+Proof.
+  intros W P.
+  destruct (ok_descriptor_describes_stored json_manifest H H_empty _ _ _ _ _ _ _ _ _ _ W P)
+    as (_ & _ & MT & e & I & K & _ & B).
+  destruct (B H_inj) as (EB & _). exists e. split; auto. split; auto.
+  rewrite EB, doc_media_type_json, doc_artifact_type_json, MT. auto.
+Qed.
